@@ -138,6 +138,10 @@ func (w *MarkdownWriter) writeHeading(para *document.Paragraph, style string) er
 	if level > 6 {
 		level = 6
 	}
+	if level < 1 {
+		// "Heading0": Markdown has no level below 1 (zero '#' would turn the heading into plain text)
+		level = 1
+	}
 
 	text := w.extractParagraphText(para)
 	if strings.TrimSpace(text) == "" {
